@@ -280,6 +280,7 @@ def check(ctx, report):
                     report.add('C19.R3', sa.construct + '@rescan[%s]' % cl.func.attr, 'scan inside the item loop starts at %s, which the loop does not advance' % (ast.unparse(off) if off is not None else '?'))
         if not scanner_work(ctx, report, pt, scan):
             scan_origin(report, scan)
+        array_work(ctx, report, pt, sa)
     report.floor('C19.R1', 300, 'classes in the containment graph')
     stateless_parsing(ctx, report)
     linear_scans_in_loops(ctx, report)
@@ -333,6 +334,72 @@ def parser_construction(ctx, report, RULE='C19.R7'):
                     report.add(RULE, '%s@validator[_parsable]' % k.construct, 'the validator method %s loops over the buffer for every parser object' % m.name)
     if n < 3:
         report.error('%s: only %d fields of the parser classes found (anchor moved)' % (RULE, n))
+
+
+def array_work(ctx, report, pt, sa, RULE='C19.R9'):
+    """ParserText._parse_string_array evaluated (sa.miniexec, the helper methods it calls included) on three families of input of
+    growing size n: n items, one item followed by a run of n separators (empty items skipped), a run of n blanks around one
+    separator.  The number of evaluation steps must be an affine function of n - equal increments for equal increases of n; an
+    increment that grows with n is work quadratic in the input (a run that is counted from every one of its positions)."""
+    from .. import miniexec
+    from ..miniexec import Evaluator, Obj, Raised, Unsupported, class_call_hook
+    report.rule(RULE, 'string arrays: evaluation steps grow by equal amounts for equal growth of the input (items, separator runs, blank runs)')
+
+    def extra(n, ev):
+        d = ast.unparse(n.func)
+        if d == 'type':
+            return 'type'
+        if d == 'isinstance' and len(n.args) == 2 and ast.unparse(n.args[1]) == 'type':
+            return isinstance(ev.ev(n.args[0]), type)
+        if d == 'issubclass' and len(n.args) == 2 and ev.ev(n.args[0]) is str:
+            return ast.unparse(n.args[1]) in ('six.string_types', 'str', 'six.text_type')      # the items of the lists here are text
+        return NotImplemented
+    hook = class_call_hook(pt, extra, ctx.model)
+    params = [a.arg for a in sa.node.args.args if a.arg != 'self']
+    defaults = {'max_item_num': None, 'item_class': str, 'fallback_class': None, 'separator_spaces': '', 'skip_empty': False}
+
+    def run(data, **kw):
+        me = Obj(_parsable=data, _encoding='ascii', _parsed_length=0, _parsed_values={})
+        me._repo_class = pt
+        env = dict(defaults)
+        env.update(kw)
+        env.update({'name': 'v', 'separator': ';', 'self': me})
+        env = {k: v for k, v in env.items() if k in params or k == 'self'}
+        miniexec.COUNTER[0] = 0
+        Evaluator(env, hook, hook.name_hook_for(sa.module, None)).function(sa.node)
+        return miniexec.COUNTER[0], me._parsed_values.get('v'), me._parsed_length
+    families = {
+        'items': (lambda n: b';'.join([b'ab'] * n), {}, lambda n: ['ab'] * n),
+        'separator-run': (lambda n: b'ab' + b';' * n + b'cd', {'skip_empty': True}, lambda n: ['ab', 'cd']),
+        'trailing-separator-run': (lambda n: b'ab' + b';' * n, {'skip_empty': True}, lambda n: ['ab']),
+        'blank-run': (lambda n: b'ab' + b' ' * n + b';' + b' ' * n + b'cd', {'separator_spaces': ' '}, lambda n: ['ab', 'cd']),
+    }
+    sizes = (8, 16, 24, 32) if not ctx.thorough else (8, 16, 24, 32, 64, 96, 128)
+    try:
+        for fam, (make, kw, want) in sorted(families.items()):
+            steps = []
+            for n in sizes:
+                report.count(RULE)
+                data = make(n)
+                st, value, consumed = run(data, **kw)
+                if value != want(n) or consumed != len(data):
+                    report.add(RULE, '%s@value[%s]' % (sa.construct, fam), 'the input %r... is read as %r (%r of %d characters consumed)' % (
+                        data[:24], (value or [])[:4], consumed, len(data)))
+                    break
+                steps.append(st)
+            else:
+                per = [(steps[i + 1] - steps[i]) / float(sizes[i + 1] - sizes[i]) for i in range(len(steps) - 1)]
+                if per[-1] > 1.25 * per[0] + 1:          # equal on the pinned tree; a quarter more per element over a fourfold size is growth
+                    report.add(RULE, '%s@work[%s]' % (sa.construct, fam),
+                               'input sizes %s take %s evaluation steps: the cost of one more element grows with the size (%s steps per element): '
+                               'the array is parsed in time quadratic in the length of the input' % (list(sizes), steps, ['%.1f' % x for x in per]))
+                else:
+                    report.sample({'rule': RULE, 'family': fam, 'sizes': list(sizes), 'steps': steps, 'steps_per_element': per[0]})
+    except Unsupported as e:
+        report.undecided.append('%s: the array parser left the subset the work tabulation understands (%s); C19.R3 reads its shape' % (RULE, e))
+    except Raised as e:
+        report.add(RULE, sa.construct + '@work', 'the array parser raises %s on a well formed list' % e.what[:60])
+    report.floor(RULE, 12, 'evaluated list inputs')
 
 
 def scanner_work(ctx, report, pt, scan):
